@@ -115,6 +115,8 @@ class Report:
             found = replay.bounded_lemma_search(path, lemma, ci, self.tier, self.seed) if replay.can_replay({"inputs": {}, "file": path, "lemma": lemma}) else None
             if found is not None:
                 self._failure("%s::%s" % (lemma, found["check"]), found["inputs"], found, known, match_known)
+            elif "contract out of date" in g["error"]:
+                self.fault("cannot generate obligations for %s: %s" % (key, g["error"]))
             elif changed and any(k.startswith(lemma) for k in base.get("groups", {})):
                 self._failure(key, None, None, known, match_known, no_input=True,
                               solver_out="verification-condition generation failed after a source change: %s; changed: %s"
